@@ -11,6 +11,7 @@ import (
 	"encoding/base64"
 	"encoding/binary"
 	"encoding/json"
+	"errors"
 	"fmt"
 	"io"
 	"io/ioutil"
@@ -27,13 +28,23 @@ import (
 // ---------------------------------------------------------------- recorder
 type vC13Rec struct {
 	net.Conn
-	mu sync.Mutex
-	wr []byte
-	rd []byte
+	mu     sync.Mutex
+	wr     []byte
+	rd     []byte
+	budget int // fault injection: >= 0: that many more Writes succeed, the next ones fail
 }
+
+var vC13ErrInjected = errors.New("vC13: injected transport write failure")
 
 func (r *vC13Rec) Write(p []byte) (int, error) {
 	r.mu.Lock()
+	if r.budget == 0 {
+		r.mu.Unlock()
+		return 0, vC13ErrInjected
+	}
+	if r.budget > 0 {
+		r.budget--
+	}
 	r.wr = append(r.wr, p...)
 	r.mu.Unlock()
 	return r.Conn.Write(p)
@@ -75,6 +86,21 @@ type vC13Seg struct {
 	deadline time.Time
 	started  bool
 	reads    int
+	wbudget  int // fault injection on Write, as in vC13Rec; -1 = never (set after the handshake)
+	armed    bool
+}
+
+func (s *vC13Seg) Write(p []byte) (int, error) {
+	s.mu.Lock()
+	if s.armed && s.wbudget == 0 {
+		s.mu.Unlock()
+		return 0, vC13ErrInjected
+	}
+	if s.armed && s.wbudget > 0 {
+		s.wbudget--
+	}
+	s.mu.Unlock()
+	return s.Conn.Write(p)
 }
 
 func (s *vC13Seg) pump() {
@@ -495,6 +521,8 @@ func vC13Code(err error) int {
 		return 3
 	case err == ErrCloseSent:
 		return 4
+	case err == vC13ErrInjected:
+		return 7
 	case strings.Contains(err.Error(), "extra used in client mode"):
 		return 6
 	}
